@@ -32,7 +32,7 @@ LEVEL_NOTE = ('Lean kernel; the model is a hand transcription of the two .pyx fi
               'side runs the pyx2py rendering (no Cython in the sandbox: compiled-C behaviour such as uninitialised reads is '
               'outside); zlib trusted. The stereo perception the format relies on (`cumulenes`, `stereogenic_cumulenes`, '
               '`_stereo_cis_trans_terminals/_centers`) is inside the model since round 5 (`packFull`/`unpackFull`), compared '
-              'verbatim with the real cached properties; that the walk never errs (`fuel`, empty `pop`) is validated at run time.')
+              'verbatim with the real cached properties and proved total on well-formed graphs (`perception_total`).')
 TECHNIQUE = 'Lean 4 executable model + induction / kernel-evaluated bit lemmas + byte-exact differential testing'
 RULE = ('structured molecules built to hit each format limit (atom numbers 1..4095, degree 0..15, every bond-count residue mod 8, '
         'every element x every tabulated isotope, charge -4..4, H None/0..6, atom/allene/cis-trans stereo, half-range and '
